@@ -327,6 +327,14 @@ for pid in ["C05", "C17", "C13"]:
 
 specs["C09"]["jobs"] = specs["C09"]["jobs"] + [_m, _a]
 
+# C17 also after a bad frame: the valid frames that follow a rejected frame are still tiled (seeded C17-im1)
+import copy as _copy
+_bf = _copy.deepcopy([j for j in specs["C13"]["jobs"] if j["name"] == "bmc_badframes"][0])
+_bf["grid"]["CR"] = [1]; _bf["grid_thorough"] = _copy.deepcopy(_bf["grid"])  # thorough K=9 not validated for the C17 routing: same bound as quick
+specs["C17"]["jobs"].append(_bf)
+specs["C17"]["explanation"] += " A further BMC job admits bad frames (no storage faults): the bad frame closes the continuous file and every valid frame after it again lands in exactly one properly started file."
+specs["C17"]["assumptions"] = [a.replace("no storage faults, no bad frames", "no storage faults; bad frames only in the bmc_badframes job") for a in specs["C17"]["assumptions"]]
+
 os.makedirs("/verif/checks", exist_ok=True)
 for pid, sp in specs.items():
     json.dump(sp, open(f"/verif/checks/{pid}.json", "w"), indent=1)
